@@ -254,6 +254,128 @@ def run_site(chk: Check, sc: Scratch, idx: int, nhostile: int) -> None:
         shutil.rmtree(base, ignore_errors=True)
 
 
+_PATH_RE = re.compile(r'"((?:[^"\\]|\\.)*)"')
+
+
+def _strace_paths(ev) -> typing.List[str]:
+    """Path arguments of a file-related syscall as strace printed them (octal escapes decoded)."""
+    out = []
+    for m in _PATH_RE.finditer(ev.args):
+        raw = m.group(1)
+        try:
+            out.append(raw.encode("latin-1").decode("unicode_escape").encode("latin-1").decode("utf-8", "surrogateescape"))
+        except Exception:
+            out.append(raw)
+    if ev.name in ("execve", "execveat"):
+        return out[:1]
+    if ev.name in ("rename", "renameat", "renameat2", "link", "linkat", "symlink", "symlinkat"):
+        return out[:2]
+    return out[:1]
+
+
+def strace_leg(chk: Check, sc: Scratch, nhostile: int) -> None:
+    """M-SYS: the same question asked of the kernel instead of CPython.  The real
+    bin/pygopherd runs under `strace -f -e trace=%file,...` with its working directory
+    in a populated outside world; every path-carrying system call issued by the server
+    (and its worker threads) while serving must name a path inside the root or part of the
+    server's own installation.  Helper processes (decompressors, script interpreters) are
+    recognised by their execve and attributed to the helper."""
+    from vf import spdriver
+    ok, why = spdriver.strace_works()
+    if not ok:
+        chk.count("strace_unavailable")
+        return
+    rng = chk.subrng("strace")
+    base = sc.sub("sys")
+    root = os.path.join(base, "root")
+    model = sites.gen_site(rng, sc.path, nfiles=8)
+    model.tree.materialize(root)
+    cwd = outside_world(sc, root, model, "B")
+    overrides = {("handlers.HandlerMultiplexer", "handlers"): driver.HANDLERS_FULL,
+                 ("handlers.ZIP.ZIPHandler", "enabled"): "true",
+                 ("handlers.file.CompressedFileHandler", "decompressors"): driver.decompressors_option()}
+    sp = spdriver.ServerProcess(conf_overrides=overrides, root=root, servertype="ThreadingTCPServer", tls=True, cwd=cwd,
+                                strace_expr="%file,execve,chdir,fchdir,chroot", workdir=os.path.join(base, "wd"), name="c01",
+                                strace_opts=["-s", "4096"])
+    sp.start()
+    try:
+        if not sp.wait_ready(40):
+            chk.note_inconclusive("strace'd server did not become ready")
+            return
+        sp.request(b"/__VF_SERVING_STARTS_HERE__\r\n")
+        requests = []
+        for o in model.objs:
+            for view in ("gopher", "gopherp$" if o.kind == "menu" else "gopherp+", "http", "gemini", "spartan"):
+                if reqs.VIEWS[view][0] in ("gopher", "gopherp") and reqs.gopher_ambiguous(o.selector):
+                    continue
+                requests.append(reqs.render(view, o.selector, b"needle" if "exec" in o.tags else None))
+        for raw, preq, cls in hostile_selectors(rng, model, True, nhostile):
+            view = rng.choice(["gopher", "gopherp+", "http", "wap", "gemini", "spartan", "gophers", "https"])
+            if preq and reqs.VIEWS[view][0] in ("gopher", "gopherp"):
+                view = "http"
+            if reqs.VIEWS[view][0] not in ("gopher", "gopherp") and not raw.startswith(b"/"):
+                raw = b"/" + raw
+            try:
+                requests.append(reqs.render(view, raw, prequoted=preq))
+            except Exception:
+                pass
+        for data, tls in requests:
+            try:
+                rep = sp.request(data, tls=tls, timeout=20)
+                if b"OUTSIDE-THE-ROOT" in rep or b"OUTSIDE SUBJECT" in rep:
+                    chk.witness("C01/outside-content-revealed:real-server", {"request": data[:200], "reply": rep[:200]})
+                    return
+            except Exception:
+                chk.count("strace_leg_client_errors")
+            chk.count("strace_leg_requests")
+    finally:
+        pid = sp.pid
+        sp.stop()
+    events = sp.trace()
+    sp.cleanup()
+    start = next((i for i, e in enumerate(events) if "__VF_SERVING_STARTS_HERE__" in e.args), None)
+    if start is None:
+        chk.note_inconclusive("serving-phase marker not found in the strace log")
+        return
+    allowed = allowed_prefixes() + ["/proc", "/dev", "/etc/localtime", "/usr/share/zoneinfo", "/etc/ld.so.cache", "/lib", "/lib64",
+                                    "/usr/lib", "/usr/lib64", "/etc/ld.so.preload", "/sys/devices/system/cpu", "/etc/nsswitch.conf",
+                                    "/etc/passwd", "/etc/group", "/usr/share/locale", "/usr/lib/locale", "/etc/locale.alias",
+                                    "/etc/ssl", "/usr/lib/ssl", "/etc/gai.conf", "/etc/hosts", "/etc/resolv.conf", "/etc/host.conf"]
+    helper_list = helpers() + ["/bin/sh", "/usr/bin/sh", "/bin/dash", "/usr/bin/dash"]
+    helper_pids = set()
+    counted = 0
+    for e in events[start:]:
+        if e.pid in helper_pids:
+            continue
+        if e.name in ("execve", "execveat") and e.ok:
+            helper_pids.add(e.pid)
+            exe = (_strace_paths(e) or [""])[0]
+            if not (audit.under(exe, root) or exe in helper_list):
+                chk.witness("C01/syscall-outside-root:execve", {"event": e.brief()[:300]})
+                return
+            continue
+        if e.name in ("chdir", "chroot"):
+            # subprocess children may chdir before exec only if asked to; the server itself never does
+            chk.count("syscall:" + e.name)
+        paths = _strace_paths(e)
+        for pth in paths:
+            if not pth:
+                continue
+            full = pth if pth.startswith("/") else os.path.normpath(os.path.join(cwd, pth))
+            counted += 1
+            if audit.under(full, root) or any(audit.under(full, a) for a in allowed) or full in helper_list:
+                continue
+            chk.witness("C01/syscall-outside-root:%s:%s" % (e.name, "working-directory" if audit.under(full, cwd) else "elsewhere"),
+                        {"event": e.brief()[:400], "resolved": full, "cwd": cwd, "root": root})
+            return
+    chk.count("strace_path_arguments_checked", counted)
+    chk.count("strace_helper_processes", len(helper_pids))
+    if counted < 200:
+        chk.note_inconclusive("the strace leg saw only %d path arguments" % counted)
+    chk.case(("strace-leg", counted > 0), {"syscall_path_arguments_checked": counted, "helper_processes": len(helper_pids),
+                                          "requests": chk.counters.get("strace_leg_requests", 0)})
+
+
 def snapshot_outside(base: str, root: str) -> typing.Dict[str, typing.Tuple[int, int]]:
     snap = {}
     for dp, dn, fn in os.walk(os.fsencode(base)):
@@ -279,8 +401,10 @@ def main() -> int:
         common.run_shards(chk, "vf.checks.c01", 16, timeout=3000)
     else:
         with Scratch("c01") as sc:
-            for i in range(2 if quick else 5):
+            for i in range(0 if os.environ.get("VF_C01_ONLY_STRACE") else (2 if quick else 5)):
                 run_site(chk, sc, i, nhostile=220 if quick else 600)
+            if quick or chk.args.shard in (0, 1):
+                strace_leg(chk, sc, nhostile=60 if quick else 700)
     if not chk.witnesses and chk.counters.get("audit_events", 0) < 1000:
         chk.note_inconclusive("the audit monitor saw fewer than 1000 events")
     return chk.finish(
@@ -291,7 +415,9 @@ def main() -> int:
              "C: cwd inside the root). Verdict per request: no audit event (open/listdir/scandir/stat/access/readlink/"
              "mkdir/remove/rename/chdir/exec/Popen...) on a path outside the root other than the server's own code and "
              "the configured decompressors; no outside content in the reply; climbing requests answered as not-found; "
-             "replies byte-identical across worlds; nothing created or changed outside the root",
+             "replies byte-identical across worlds; nothing created or changed outside the root; plus (M-SYS) the real "
+             "server process under strace -f in a populated outside world: every path argument of every file-related system "
+             "call made by the server while serving is inside the root or part of its own installation",
         assumptions=["no symlink leaves the root", "kernel-level effects of helper programs (decompressors, script "
                      "interpreters) are attributed to the helper", "the three worlds sample 'every state outside the root'"])
 
